@@ -25,7 +25,7 @@ ASSUMPTIONS = [
     "generated programs are valid Fortran: gfortran -fsyntax-only accepts every program behind a reported violation "
     "(and a sample of all programs in the thorough tier)",
 ]
-CFG = {"docs": False}
+CFG = {"docs": False, "late_access": True}
 FORD_OPTS = dict(display=["public", "private", "protected"], proc_internals=True)
 
 
